@@ -105,11 +105,16 @@ class Events:
                     self.writes.append((loc, root, "sq", tuple(idx + cidx), v))
                 else:
                     self.writes.append((loc, root, f, None, v))
-        # std mutators through `&mut field`: `self.field.take()` stores None (and hands back the old value)
+        # std mutators through `&mut place`: `self.field.take()` stores None, `mem::replace(&mut P, v)`
+        # stores v (both hand back the old value, which Exprs models as a read of P before the call)
         from wa.mir import alias_of as _alias_of
         for bb, t in b.iter_calls():
             c = callee_of(t) or ""
-            if not (c.endswith("Option::<T>::take") and t["args"]):
+            if c.endswith("Option::<T>::take") and t["args"]:
+                newv = ("agg", "std::option::Option", "None", ())
+            elif c in ("std::mem::replace", "core::mem::replace") and len(t["args"]) == 2:
+                newv = ex.operand(t["args"][1], b.term_loc(bb))
+            else:
                 continue
             a = t["args"][0]
             if a.get("k") not in ("copy", "move") or a["place"]["proj"]:
@@ -120,8 +125,15 @@ class Events:
                 root = ("ptr", r)
             elif mode == "ref" and b.local_ty(r) == BS:
                 root = ("local", r)
-            if root is not None and pr and pr[0]["k"] == "field" and pr[0]["name"] in HASHED and len(pr) == 1:
-                self.writes.append((b.term_loc(bb), root, pr[0]["name"], None, ("agg", "std::option::Option", "None", ())))
+            if root is None or not pr or pr[0]["k"] != "field" or pr[0]["name"] not in HASHED:
+                continue
+            loc = b.term_loc(bb)
+            if pr[0]["name"] == "board":
+                idx = [ex.local(e["local"], loc) for e in pr[1:] if e["k"] == "index"]
+                cidx = [("const", e["offset"]) for e in pr[1:] if e["k"] == "cindex"]
+                self.writes.append((loc, root, "sq", tuple(idx + cidx), newv))
+            elif len(pr) == 1:
+                self.writes.append((loc, root, pr[0]["name"], None, newv))
 
 
 def control_equivalent(b, x, y):
@@ -528,7 +540,13 @@ def r5_1(ctx):
     def sq_is(idx, p):
         return tuple(idx) == (("field", p, "0"), ("field", p, "1"))
 
+    b0 = b
     for pi, (blocks, dec) in enumerate(paths):
+        # events are read on the body restricted to this path: a key change collected in a local
+        # (`let mut d = a ^ b; if .. { d ^= c }; key ^= d`) has one definition per use there
+        off = {(x, s) for k, x in enumerate(blocks) for s in b0.succ.get(x, []) if k + 1 >= len(blocks) or s != blocks[k + 1]}
+        b = b0.restrict(off)
+        ev = Events(b)
         es = _path_events(b, ev, blocks)
         src_full = dst_full = None
         for d, (vals, oth) in dec.items():
@@ -714,6 +732,14 @@ def _r5_4_scan(ctx, f, b, ex, colour, emit):
                 # the piece hashed is the piece read back from that square (I7) or the very piece stored there
                 pe = strip_refs(t[1])
                 ok_piece = (pe[0] == "agg" and pe[1] == "board::Piece") or (stored_piece is not None and pe == stored_piece)
+                if not stored:
+                    # a separate pass over the finished board (`for row in A..B { for col in A..B { if let
+                    # Full(p) = board[row][col] { key ^= piece(p, row, col) } } }`): the piece is read back
+                    # from the square it is hashed at, every playable square is visited, and the placement is
+                    # not written any more once the pass has begun
+                    okscan, whyscan = _full_scan(f, b, ex, loc, pe, pr, pc)
+                    ob("from_fen:piece-key#%d" % seen["piece"], okscan, where, "piece key of %s at (%s, %s): %s" % (show_expr(pe, b)[:60], show_expr(pr, b), show_expr(pc, b), whyscan))
+                    continue
                 ob("from_fen:piece-key#%d" % seen["piece"], stored and ok_piece, where,
                        "piece key of %s at (%s, %s): square stored in a dominating block: %s" % (show_expr(pe, b)[:60], show_expr(pr, b), show_expr(pc, b), stored))
             elif t[0] == "ep":
@@ -759,6 +785,56 @@ def _r5_4_scan(ctx, f, b, ex, colour, emit):
             else:
                 ob("from_fen:unknown-key-term", False, where, "key updated with an unrecognised term: %s" % show_expr(t[1], b)[:80], reason="shape-not-recognised")
     return seen
+
+
+def _full_scan(f, b, ex, loc, pe, pr, pc):
+    """The XOR at `loc` of piece(pe, Point(pr, pc)) belongs to a complete scan of the finished placement."""
+    from wa.loopform import range_bounds, is_range_next
+    # (1) the piece is the payload read from square [pr][pc] of a placement array
+    x = pe
+    if x[0] == "field" and x[2] == "0":
+        x = x[1]
+    if not (x[0] == "downcast" and x[2] == "Full"):
+        return False, "the piece is not read back from a square"
+    sq = strip_refs(x[1])
+    if not (sq[0] == "index" and sq[1][0] == "index" and (sq[1][2], sq[2]) == (pr, pc)):
+        return False, "the piece is read from another square than the one it is hashed at"
+    # (2) both coordinates run over a constant range that covers the playable area
+    lo_need, hi_need = 2, 10   # the 8x8 area of the 12x12 mailbox (layout decided by R15.x / R0.1)
+    for c in (pr, pc):
+        c0 = strip_refs(c)
+        if not (c0[0] == "field" and c0[2] == "0" and c0[1][0] == "downcast" and c0[1][2] == "Some" and c0[1][1][0] == "call" and is_range_next(c0[1][1])):
+            return False, "square coordinate `%s` is not the variable of a range loop" % show_expr(c0, b)[:40]
+        rb = range_bounds(ex, c0[1][1])
+        if rb is None:
+            return False, "range bounds not found"
+        lo, hi, incl = strip_refs(rb[0]), strip_refs(rb[1]), rb[2]
+        if not (lo[0] == "const" and hi[0] == "const"):
+            return False, "range bounds are not constants"
+        if lo[1] > lo_need or hi[1] + (1 if incl else 0) < hi_need:
+            return False, "the scan visits %d..%s%d only: squares of the playable area %d..%d are never hashed" % (lo[1], "=" if incl else "", hi[1], lo_need, hi_need)
+    # (3) the only data condition on the way from the loop heads to the XOR is "this square holds a piece"
+    for d, vals, excl, s, tg in dominating_facts(b, ex, loc[0]):
+        d0 = strip_refs(d)
+        if d0[0] == "discr" and d0[1][0] == "call" and d0[1][1].endswith("::next"):
+            continue
+        if d0[0] == "discr" and strip_refs(d0[1]) == sq:
+            continue
+        # conditions decided before the scan started (they dominate the scan's first loop head) are global
+        heads = [h for h in b.loops() if loc[0] in b.loops()[h]]
+        if heads and all(b.edge_dominates((s, tg), h) for h in heads):
+            continue
+        return False, "the XOR is under a further condition (%s at %s)" % (show_expr(d0, b)[:50], b.where(b.term_loc(s)))
+    # (4) no store into a placement array is reachable from here
+    for loc2, st2 in b.iter_stmts():
+        if st2["k"] != "assign":
+            continue
+        p2 = st2["place"]
+        nidx = len([e2 for e2 in p2["proj"] if e2["k"] in ("index", "cindex")])
+        tyl = b.local_ty(p2["local"])
+        if nidx == 2 and ("[[board::Square" in tyl or tyl.endswith(BS)) and (loc2[0] == loc[0] or b.reaches(loc[0], loc2[0])):
+            return False, "the placement is still written at %s after the scan has begun" % b.where(loc2)
+    return True, "read back from that square by a scan of %d..%d x %d..%d over the finished placement" % (lo_need, hi_need, lo_need, hi_need)
 
 
 def _table_item(b, ex, e):
@@ -817,7 +893,16 @@ def _ep_guard_exact(f, b, ex, xloc):
         return False, "the en-passant target is never set"
     facts_x = dominating_facts(b, ex, xloc[0])
     extra = []
+    # leaving a constant-range loop because it is exhausted is not a condition (a scan that precedes the XOR)
+    from wa.loopform import exhaustion_exits
+    loops_ = b.loops()
+    done = set()
+    for h in loops_:
+        if xloc[0] not in loops_[h]:
+            done |= exhaustion_exits(b, ex, loops_, h, const_bounds=True)
     for d, vals, excl, s, tg in facts_x:
+        if (s, tg) in done or len(set(b.succ.get(s, []))) <= 1:
+            continue                      # (a switch with one feasible edge on this specialisation decides nothing)
         if b.edge_dominates((s, tg), agg[0][0]):
             continue                      # global non-error condition
         if all(b.edge_dominates((s, tg), dl[0]) or tg == dl[0] for dl in some_defs):
@@ -893,25 +978,40 @@ def r5_5(ctx):
         pts = [x for x in idxs if x[0] == "field" and x[1][0] == "arg"]
         ok = len(idxs) == 3 and {x[2] for x in pts} == {"0", "1"} and e[0] == "field" and e[2] == "piece_square_table"
     ctx.ob("get_val_for_piece:uses-both-coordinates", ok, b.where((0, 0)), "the piece table is indexed by [piece][one coordinate][the other coordinate]")
-    # get_val_for_castling: four variants -> four distinct fields
-    b = f.body(G_CASTLE)
-    ex = Exprs(b)
+    # get_val_for_castling: four variants -> four distinct storage cells of the hasher (a field each, or
+    # four constant slots of one table); decided per variant on the body specialised to it
+    from wa.cond import specialise
+    b0 = f.body(G_CASTLE)
     cvars = f.enum_variant_by_discr("move_generation::CastlingType")
+    ctp = [i for i in range(1, b0.arg_count + 1) if b0.local_ty(i).lstrip("&") == "move_generation::CastlingType"]
+    if len(ctp) != 1:
+        raise ShapeNotRecognised("get_val_for_castling(.., castling_type)")
+    cte = ("arg", ctp[0])
+    if b0.local_ty(ctp[0]).startswith("&"):
+        cte = ("deref", cte)
+
+    def cell(e):
+        e = strip_refs(e)
+        if e[0] == "field":
+            c = cell(e[1])
+            return None if c is None else c + (e[2],)
+        if e[0] in ("index", "cidx"):
+            c = cell(e[1])
+            k = strip_refs(e[2]) if e[0] == "index" else ("const", e[2])
+            return None if c is None or k[0] != "const" else c + (k[1],)
+        if e[0] in ("arg", "mem", "deref"):
+            return ("self",)
+        return None
     m = {}
-    for blocks, dec in enum_paths(b, ex):
-        var = None
-        for d, (vs, oth) in dec.items():
-            if d[0] == "discr" and not oth and len(vs) == 1:
-                var = cvars.get(vs[0])
-        for bb in blocks:
-            for i, st in enumerate(b.stmts(bb)):
-                if st["k"] == "assign" and st["place"]["local"] == 0:
-                    e = ex.rvalue(st["rv"], (bb, i))
-                    if e[0] == "field" and var:
-                        m[var] = e[2]
-    want = {v: k for k, v in FLAG_VARIANT.items()}
-    ok = m == want
-    ctx.ob("get_val_for_castling:variant-field-table", ok, b.where((0, 0)), "variant -> key field: %s" % sorted(m.items()))
+    for var in sorted(cvars.values()):
+        b, ex, _dead = specialise(b0, {cte: ("eq", var)}, {cte: cvars})
+        cells = set()
+        for bb in b.return_blocks():
+            cells.add(cell(ex.place({"local": 0, "proj": [], "ty": b.local_ty(0)}, b.term_loc(bb))))
+        if len(cells) == 1 and None not in cells:
+            m[var] = next(iter(cells))
+    ok = set(m) == set(FLAG_VARIANT.values()) and len(set(m.values())) == 4
+    ctx.ob("get_val_for_castling:variant-field-table", ok, b0.where((0, 0)), "variant -> key cell: %s (four variants, four distinct cells)" % sorted((k, ".".join(str(x) for x in v[1:])) for k, v in m.items()))
     # hasher seed is a constant and every key cell is filled from the generator
     b = f.body("zobrist::ZobristHasher::create_zobrist_hasher")
     ex = Exprs(b)
